@@ -11,8 +11,8 @@ for d in seeded/*/; do
   git -C /repo worktree add -q --detach "$wt" HEAD || continue
   if git -C "$wt" apply "$PWD/$d/patch.diff" 2>/dev/null; then
     res=$(./run.sh check -p "$prop" -repo "$wt" -evidence "$wt/.ev.json" 2>&1)
-    if echo "$res" | grep -q '^VIOLATION'; then
-      echo "$id DETECTED by $(echo "$res" | grep -E '^(VIOLATED|UNDECIDED)' | grep -v 'C11.2 freshness-age-fabricated' | awk '{print $2}' | sort -u | tr '\n' ' ')" >> "$OUT"
+    if printf "%s\n" "$res" | grep -q '^VIOLATION'; then
+      echo "$id DETECTED by $(printf "%s\n" "$res" | grep -E '^(VIOLATED|UNDECIDED)' | grep -v 'C11.2 freshness-age-fabricated' | awk '{print $2}' | sort -u | tr '\n' ' ')" >> "$OUT"
     else
       echo "$id MISSED" >> "$OUT"
     fi
